@@ -23,6 +23,7 @@ SCHED_PROPS = {
     'C01': ((300, 3000), (6, 60)), 'C02': ((300, 3000), (4, 40)), 'C03': ((300, 3000), (6, 60)),
     'C04': ((300, 3000), (6, 60)), 'C08': ((300, 3000), (4, 40)), 'C13': ((300, 3000), (4, 40)),
     'C14': ((300, 3000), (6, 60)), 'C07': ((150, 1500), (0, 20)), 'C05': ((100, 1000), (0, 10)),
+    'C06': ((300, 3000), (6, 60)), 'C12': ((100, 1000), (0, 10)),
     'C15': ((0, 0), (0, 0)),
 }
 
@@ -500,14 +501,17 @@ def run(pid, tier, seed, work):
     nsets = dq if tier == 'quick' else dt
     jobs = []
     kinds = ['pool'] if pid == 'C14' else ['lru', 'hashmap', 'pool']
-    profile = 'limit' if pid in ('C07', 'C08') else 'mixed'
+    profile = 'limit' if pid in ('C07', 'C08') else ('cancel' if pid in ('C06', 'C13', 'C04', 'C12') else 'mixed')
     sd = int(hashlib.sha256(f'{seed}/{pid}/sched'.encode()).hexdigest()[:8], 16)
     if ncases:
         per = max(1, ncases // len(kinds))
         for k in kinds:
-            prof = 'pool' if k == 'pool' else profile
+            prof = profile if (k != 'pool' or profile == 'cancel') else 'pool'
             jobs.append((['sgen', '--seed', str(sd), '--cases', str(per), '--kind', k, '--threads', '0', '--stmts', '5',
                           '--profile', prof], f'sg_{k}'))
+            if profile != 'cancel' and pid in ('C01', 'C02', 'C03', 'C14'):
+                jobs.append((['sgen', '--seed', str(sd + 7), '--cases', str(max(1, per // 2)), '--kind', k, '--threads', '0',
+                              '--stmts', '5', '--profile', 'cancel'], f'sgc_{k}'))
     if nsets:
         for k in kinds:
             jobs.append((['sdfs-gen', '--seed', str(sd + 1), '--count', str(max(1, nsets // len(kinds))), '--kind', k,
